@@ -363,6 +363,62 @@ func c05Body(w *W) {
 			}
 		}
 	}
+	// (6) documents above the 8 KiB threshold cut off in the middle: the token on which an
+	// index buffer ends (a colon, a comma, a quote, a bracket) x where the input is cut
+	if part == 0 || part == 6 {
+		w.Note("cut large documents: an object of 1700 members (~24 KB, 5 index buffers) with 0..9 extra structurals in front (so each kind of token ends an index buffer) cut at every byte of a 200-byte window behind each 1408th structural and at the very end; Parse and ParseND, all configurations, guard pages")
+		for pad := 0; pad <= 9; pad++ {
+			w.res.States++
+			if !w.Mine() || w.Expired() || w.TooManyViolations() {
+				continue
+			}
+			var b bytes.Buffer
+			b.WriteString(`{"p":[`)
+			for i := 0; i < pad; i++ {
+				if i > 0 {
+					b.WriteByte(',')
+				}
+				b.WriteByte('0')
+			}
+			b.WriteString(`]`)
+			for i := 0; i < 1700; i++ {
+				fmt.Fprintf(&b, `,"k%d":"v%d"`, i, i*7)
+			}
+			b.WriteString(`}`)
+			doc := b.Bytes()
+			// byte offsets at which the (k*flush)-th structural index lies
+			_, flushAt, _ := simdjson.VerifGeometry()
+			var marks []int
+			cnt, inStr := 0, false
+			for i, ch := range doc {
+				structural := false
+				if ch == '"' {
+					if !inStr {
+						structural = true
+					}
+					inStr = !inStr
+				} else if !inStr && (ch == '{' || ch == '}' || ch == '[' || ch == ']' || ch == ':' || ch == ',' || (ch >= '0' && ch <= '9' && (i == 0 || strings.IndexByte("[,:", doc[i-1]) >= 0))) {
+					structural = true
+				}
+				if structural {
+					cnt++
+					if cnt%flushAt == 0 {
+						marks = append(marks, i)
+					}
+				}
+			}
+			marks = append(marks, len(doc)-200)
+			for _, m := range marks {
+				for cut := m + 1; cut <= m+200 && cut <= len(doc); cut++ {
+					if cut < 8300 {
+						continue
+					}
+					w.res.Transitions++
+					c.run(doc[:cut], fmt.Sprintf("C05-cut-large/pad%d", pad), true)
+				}
+			}
+		}
+	}
 	w.Sample(fmt.Sprintf("mutation sample: %q with byte 17 replaced by 0x00..0xff", mutationSeeds[0]))
 }
 
